@@ -248,6 +248,19 @@ def _check_root_ref(root, doc, params):
         raise Problem("refs", "all_refs is in force but the dataclass root was emitted inline", {"keys": list(doc)[:6]})
 
 
+def _has_dataclass(v, depth=0) -> bool:
+    import dataclasses
+    if dataclasses.is_dataclass(v) and not isinstance(v, type):
+        return True
+    if depth > 6:
+        return False
+    if isinstance(v, dict):
+        return any(_has_dataclass(k, depth + 1) or _has_dataclass(x, depth + 1) for k, x in v.items())
+    if isinstance(v, (list, tuple, set, frozenset)):
+        return any(_has_dataclass(x, depth + 1) for x in v)
+    return False
+
+
 def _check_default_values(root, stats):
     """the "default" of every property = what the serializer emits for that field of a default-constructed instance.
     Applies to a dataclass root that can be built without arguments and whose Config (and Config.dialect) sets none of
@@ -278,6 +291,8 @@ def _check_default_values(root, stats):
             continue
         if "Annotated[" in str(f.type) or "Alias" in str(f.type):
             continue
+        if _has_dataclass(f.default):
+            continue      # a nested dataclass brings its own Config (and may take the neutral dialect of _default): not comparable
         key = f.metadata.get("alias")
         if key is None:
             key = aliases.get(f.name)
